@@ -255,6 +255,16 @@ func TestWorker(t *testing.T) {
 				isSweep = true
 			}
 		}
+		if sc.StallSweep > 0 && !isSweep {
+			// the forced stall (fault F13 placed on purpose) lands before every step of the task
+			for k := 1; k <= sc.StallSweep && time.Now().Before(deadline); k++ {
+				sk := *sc
+				sk.ForceStallStep = k
+				one(&sk, i)
+				out.Stats["stall_sweep_points"]++
+			}
+			continue
+		}
 		if !isSweep {
 			one(sc, i)
 			continue
